@@ -16,10 +16,14 @@ mod props;
 use std::cell::RefCell;
 
 thread_local! { pub static LAST_PANIC: RefCell<String> = const { RefCell::new(String::new()) }; }
+thread_local! { pub static GUARD_DEPTH: std::cell::Cell<u32> = const { std::cell::Cell::new(0) }; }
 
 /// Run `f` catching panics; Err carries the panic message and location.
 pub fn guarded<R>(f: impl FnOnce() -> R) -> Result<R, String> {
-    match std::panic::catch_unwind(std::panic::AssertUnwindSafe(f)) {
+    GUARD_DEPTH.with(|d| d.set(d.get() + 1));
+    let r = std::panic::catch_unwind(std::panic::AssertUnwindSafe(f));
+    GUARD_DEPTH.with(|d| d.set(d.get() - 1));
+    match r {
         Ok(r) => Ok(r),
         Err(_) => Err(LAST_PANIC.with(|p| p.borrow().clone())),
     }
@@ -35,6 +39,10 @@ fn main() {
             "panic".to_string()
         };
         let loc = info.location().map(|l| format!("{}:{}", l.file(), l.line())).unwrap_or_default();
+        if GUARD_DEPTH.with(|d| d.get()) == 0 {
+            // a panic of the machinery itself, not of the code under test
+            eprintln!("MACHINERY panic in harness: {} @ {}", msg, loc);
+        }
         LAST_PANIC.with(|p| *p.borrow_mut() = format!("{} @ {}", msg, loc));
     }));
     let args: Vec<String> = std::env::args().collect();
